@@ -91,6 +91,9 @@ func (e *Engine) verifyContract(ct *Contract) (res *FnResult) {
 		S.Assume(And(app(SBool, ">", c, IntLit(0)), app(SBool, "<", c, fc.heapGet(st, nextVar))), "captured variable")
 	}
 	fc.entry = st
+	fc.guardSeen = map[string]bool{}
+	fc.freshRefs = map[string]bool{}
+	fc.assumeEntryLocks(st)
 	e.refinesAxioms(fc)
 	for _, ax := range e.CS.Axioms {
 		e.needAxioms(fc, ax.PkgPath)
@@ -121,9 +124,15 @@ func (e *Engine) verifyContract(ct *Contract) (res *FnResult) {
 		penv.Results = append(penv.Results, TVal{T: r.T, Ty: ty, P: r.P})
 	}
 	for _, cl := range ct.Ensures {
-		t := fc.evalClause(penv, cl)
-		ob := fc.oblige(exit, "ensures", cl.Label, "", t, cl.Src)
-		ob.Known = cl.Known
+		parts := fc.evalClauseParts(penv, cl)
+		for i, t := range parts {
+			lab := cl.Label
+			if len(parts) > 1 {
+				lab = fmt.Sprintf("%s/%d", cl.Label, i+1)
+			}
+			ob := fc.oblige(exit, "ensures", lab, "", t, cl.Src)
+			ob.Known = cl.Known
+		}
 	}
 	// frame obligations
 	if len(ct.Modifies) > 0 || len(ct.ModAll) > 0 || ct.hasFrame() {
